@@ -132,7 +132,8 @@ def template(t, j, fails):
 
 def build(sc):
     body, form = sc['body'], sc['form']
-    main = [{'k': 'dim', 'n': 'arr%', 'dims': [{'lo': num(0), 'hi': num(3), 'haslo': False}], 'rec': None, 't': 'I'}]
+    main = [{'k': 'dim', 'n': 'arr%', 'dims': [{'lo': num(0), 'hi': num(3), 'haslo': False}], 'rec': None, 't': 'I'},
+            pr(strl('E0'), {'k': 'fn', 'n': 'err', 't': 'I', 'args': []})]      # ERR before any error is 0
     fixes = []
     inproc = False
     if form == 'disarmed':
